@@ -258,3 +258,63 @@ func c12GenMulti(r *rng) c12Input {
 	}
 	return in
 }
+
+// c12MultiBoundary: deterministic programs for the unwinding of several contexts of a loaded script at once: the callee has
+// ns static fields (all counted), `depth` internal CALL frames with a compound in a local each, `left` items left on its own
+// stack, and throws at the innermost frame; the caller's TRY is in the context that made the call (inner = 0) or in a
+// context below it (inner = 1, 2); afterwards the caller allocates 2000 items and reads its own static field.
+func c12MultiBoundary() []c12Input {
+	var out []c12Input
+	for _, ns := range []int{1, 3} {
+		for depth := 0; depth <= 3; depth++ {
+			for _, left := range []int{0, 2} {
+				for inner := 0; inner <= 2; inner += 1 + depth%2 {
+					b := newC12L()
+					b.op(opcode.INITSSLOT, byte(ns))
+					for i := 0; i < ns; i++ {
+						if i%2 == 0 {
+							b.op(opcode.NEWARRAY0)
+						} else {
+							b.op(opcode.PUSH4)
+						}
+						b.op(opcode.STSFLD0 + opcode.Opcode(i))
+					}
+					for i := 0; i < left; i++ {
+						b.op(opcode.PUSH8)
+					}
+					for j := 1; j <= depth; j++ {
+						l := b.fresh("F")
+						b.jumpL(opcode.CALLL, l)
+						b.op(opcode.RET)
+						b.label(l)
+						b.op(opcode.INITSLOT, 1, 0).op(opcode.NEWMAP).op(opcode.STLOC0)
+					}
+					b.op(opcode.PUSH7).op(opcode.THROW)
+					a := newC12L()
+					a.op(opcode.INITSSLOT, 1).op(opcode.NEWARRAY0).op(opcode.STSFLD0)
+					a.tryL("c", "")
+					for j := 1; j <= inner; j++ {
+						l := a.fresh("G")
+						a.jumpL(opcode.CALLL, l)
+						a.jumpL(opcode.ENDTRYL, "e")
+						a.label(l)
+						a.op(opcode.INITSLOT, 1, 0).op(opcode.PUSH2).op(opcode.STLOC0)
+					}
+					a.syscall(1)
+					if inner == 0 {
+						a.jumpL(opcode.ENDTRYL, "e")
+					} else {
+						a.op(opcode.RET)
+					}
+					a.label("c")
+					a.op(opcode.DROP)
+					a.jumpL(opcode.ENDTRYL, "e")
+					a.label("e")
+					a.op(opcode.PUSHINT16, byte(2000&0xff), byte(2000>>8)).op(opcode.NEWARRAY).op(opcode.DEPTH).op(opcode.LDSFLD0)
+					out = append(out, c12Input{Script: hx(a.resolve()), Scripts: []string{hx(b.resolve())}, Base: 1, Limit: 10000000})
+				}
+			}
+		}
+	}
+	return out
+}
